@@ -83,9 +83,9 @@ fn compile_in(c: &Cmd, uni: &Arc<UniCtx>, enclosing: &Arc<Vec<u16>>) -> C {
         Cmd::Event(id) => Command::event(Event::Tag { tag: id, from: vec![id, 0], val: 0 }),
         Cmd::Notify(id) => Command::notify_shell(Op::new(vec![id], NOTE)).into(),
         Cmd::Req(id) => Command::request_from_shell(Op::new(vec![id, 0], REQ)).then_send(move |o| leaf_event(id, &seq, &o)),
-        Cmd::ReqMap(id) => Command::request_from_shell(Op::new(vec![id, 0], REQ)).map(|o: Out| Out { nonce: o.nonce, data: o.data.iter().rev().cloned().collect() }).then_send(move |o| {
+        Cmd::ReqMap(id) => Command::request_from_shell(Op::new(vec![id, 0], REQ)).map(|o: Out| Out { nonce: o.nonce, data: o.data.iter().rev().cloned().collect(), text: o.text.clone() }).then_send(move |o| {
             // undo the (invertible) map so that the event equals the reference's
-            let o = Out { nonce: o.nonce, data: o.data.iter().rev().cloned().collect() };
+            let o = Out { nonce: o.nonce, data: o.data.iter().rev().cloned().collect(), text: o.text.clone() };
             leaf_event(id, &seq, &o)
         }),
         Cmd::Sub(id) => Command::stream_from_shell(Op::new(vec![id, 0], SUB)).then_send(move |o| leaf_event(id, &seq, &o)),
